@@ -134,6 +134,7 @@ func runC05(c *an.Ctx) {
 
 	// ---- R5 cache and pool.
 	c05CachePool(c)
+	c05NoDefaultsInConstructor(c)
 }
 
 // dependsOnRecycled: does v read a field of the recycled transaction (other than tx.id, which was just set, and tx.WAF/w)?
@@ -722,4 +723,32 @@ func firstArgOrRecv(call *ssa.CallCommon) ssa.Value {
 		return call.Args[0]
 	}
 	return nil
+}
+
+// c05NoDefaultsInConstructor: NewTransactionVariables runs once per pooled object, newTransaction for every
+// hand-out.  A default value written by the constructor exists in a brand-new transaction and is gone (reset) in
+// every recycled one, so the two start in different states: variables get their initial values in newTransaction.
+func c05NoDefaultsInConstructor(c *an.Ctx) {
+	fn := c.Fn("R3", "internal/corazawaf.NewTransactionVariables")
+	if fn == nil {
+		return
+	}
+	var bad []string
+	n := 0
+	an.Instrs(fn, func(in ssa.Instruction) {
+		cc := an.CallOf(in)
+		if cc == nil || cc.StaticCallee() == nil || cc.StaticCallee().Signature.Recv() == nil {
+			return
+		}
+		n++
+		if !strings.Contains(relPkg(cc.StaticCallee()), "collections") {
+			return
+		}
+		switch cc.StaticCallee().Name() {
+		case "Set", "SetIndex", "Add", "SetCS", "AddCS":
+			bad = append(bad, tempName.ReplaceAllString(an.Expr(cc.Args[0]), "")+"."+cc.StaticCallee().Name())
+		}
+	})
+	c.Check(len(bad) == 0, "R3", "NewTransactionVariables only builds collections (no initial values)", fn.Pos(), "no Set/Add in the constructor",
+		"the constructor of the variable set writes initial values ("+strings.Join(bad, ", ")+"): it runs only the first time a pooled transaction object is built, Close resets the value, and every recycled transaction therefore starts without it while a brand-new one has it")
 }
